@@ -4,6 +4,11 @@
 // the operation (compared with the calls the model makes to its cmp), and evaluates the property with an oracle that does
 // not use the model: a std::multiset reference and a walker over the real pointers.
 //   line 1: "pool <n> cmp <kind>"; ops: "p <id> <prio>" push, "o" pop, "r <id>" remove.
+// RAW mode (line 1: "pool <n> cmp <kind> raw"; compared with the POINTER-LEVEL model only, no oracle): the script
+// works on the bare hook memory, so that the private _merge/_collapse can be run on detached sub-heaps and their
+// result compared in isolation (intermediate states of pop/remove):
+//   "P <id> <prio>" store a priority, "w <id> <c|b|s> <id|->" raw write of one hook field, "R <id|->" set _root,
+//   "m <a> <b>" call _merge(a, b) -> "m<ret>", "k <id|->" call _collapse(head) -> "k<ret>", p/o/r as above.
 #include <memory>
 #include <set>
 #include <vector>
@@ -129,12 +134,68 @@ static void walk(World &w, const char *when) {
 	}
 }
 
+// ---- raw mode: no reference, no oracle; every FRG_ASSERT is a legitimate outcome (the pointer-level model must stop too)
+static bool raw_ptr(World &w, const std::string &s, PNode *&out) {
+	if(s == "-") { out = nullptr; return true; }
+	int i = atoi(s.c_str());
+	if(i < 0 || i >= w.n) return false;
+	out = &w.pool[i]; return true;
+}
+
+static void body_raw(World &w, const vh::Lines &ls) {
+	try {
+		for(size_t i = 1; i < ls.size(); i++) {
+			auto t = vh::split(ls[i]);
+			if(t.empty()) continue;
+			g_cmplog.clear();
+			std::string res = "u";
+			PNode *a = nullptr, *b = nullptr;
+			if(t[0] == "p" && t.size() == 3) {
+				if(!raw_ptr(w, t[1], a) || !a) continue;
+				// push of the sole contained element: nothing asserts, _merge(x, x) -- not executed (as in the normal mode)
+				if(w.hp._root == a && !a->hook.child && !a->hook.backlink && !a->hook.sibling) { printf("ub\n"); w.wipe(); return; }
+				a->prio = vh::u64(t[2]);
+				w.hp.push(a);
+			} else if(t[0] == "o" && t.size() == 1) {
+				w.hp.pop();
+			} else if(t[0] == "r" && t.size() == 2) {
+				if(!raw_ptr(w, t[1], a) || !a) continue;
+				w.hp.remove(a);
+			} else if(t[0] == "P" && t.size() == 3) {
+				if(!raw_ptr(w, t[1], a) || !a) continue;
+				a->prio = vh::u64(t[2]);
+			} else if(t[0] == "w" && t.size() == 4) {
+				if(!raw_ptr(w, t[1], a) || !a || !raw_ptr(w, t[3], b)) continue;
+				if(t[2] == "c") a->hook.child = b;
+				else if(t[2] == "b") a->hook.backlink = b;
+				else if(t[2] == "s") a->hook.sibling = b;
+				else continue;
+			} else if(t[0] == "R" && t.size() == 2) {
+				if(!raw_ptr(w, t[1], a)) continue;
+				w.hp._root = a;
+			} else if(t[0] == "m" && t.size() == 3) {
+				if(!raw_ptr(w, t[1], a) || !a || !raw_ptr(w, t[2], b) || !b || a == b) continue;
+				res = "m" + nm(w, w.hp._merge(a, b));
+			} else if(t[0] == "k" && t.size() == 2) {
+				if(!raw_ptr(w, t[1], a)) continue;
+				res = "k" + nm(w, w.hp._collapse(a));
+			} else continue;
+			print_state(w, res.c_str());
+		}
+	} catch(vh::AssertStop &) {
+		printf("assert\n");
+	}
+	w.wipe();
+}
+
 static void body(const vh::Lines &ls) {
 	if(ls.empty()) return;
 	auto t0 = vh::split(ls[0]);
 	int n = 0;
-	if(t0.size() == 4 && t0[0] == "pool") { n = atoi(t0[1].c_str()); g_kind = atoi(t0[3].c_str()); }
+	bool raw = false;
+	if((t0.size() == 4 || t0.size() == 5) && t0[0] == "pool") { n = atoi(t0[1].c_str()); g_kind = atoi(t0[3].c_str()); raw = t0.size() == 5 && t0[4] == "raw"; }
 	World w(n);
+	if(raw) { body_raw(w, ls); return; }
 	bool expect_assert = false;
 	char when[64] = "start";
 	try {
